@@ -33,7 +33,23 @@ def load_known(config):
     if not os.path.exists(KNOWN):
         return None
     j = json.load(open(KNOWN))
-    return set(j.get(config, [])) if config in j else None
+    if config not in j:
+        return None
+    return set(j[config]["fns"]), {tuple(e) for e in j[config]["edges"]}
+
+
+def static_edges(bodies):
+    """(owner key, callee key) for every statically resolved call to a crate-local function; closures count as their root"""
+    out = set()
+    for b in bodies:
+        if b["kind"] == "Promoted":
+            continue
+        owner = _strip_generics(b.get("root") or b["id"]) if b["kind"] == "Closure" else _strip_generics(b["id"])
+        for blk in b["blocks"]:
+            c = _static_callee(blk["term"])
+            if c:
+                out.add((owner, _strip_generics(c)))
+    return out
 
 
 class _TypeSubst:
@@ -183,69 +199,85 @@ def _inline_one(caller, bi, callee, types):
 
 def inline_program(j, config):
     """mutates the fact dictionary. Returns a report dict."""
-    known = load_known(config)
-    rep = {"novel": [], "inlined_sites": 0, "dropped": [], "kept": []}
-    if known is None:
+    kn = load_known(config)
+    rep = {"novel": [], "inlined_sites": 0, "new_edges": [], "dropped": [], "kept": []}
+    if kn is None:
         return rep
+    known, kedges = kn
     bodies = j["bodies"]
     by_id = {b["id"]: b for b in bodies}
     novel = {}
     for b in bodies:
         if b["kind"] in ("Fn", "AssocFn") and _strip_generics(b["id"]) not in known:
             novel[b["id"]] = b
-    if not novel:
-        return rep
     rep["novel"] = sorted(novel)
-    # recursion among novel functions: never inline those
-    edges = {n: set() for n in novel}
-    for n, b in novel.items():
+    # static call graph among local functions (for the recursion guard)
+    succ = {}
+    for b in bodies:
+        if b["kind"] == "Promoted":
+            continue
+        owner = (b.get("root") or b["id"]) if b["kind"] == "Closure" else b["id"]
         for blk in b["blocks"]:
             c = _static_callee(blk["term"])
-            if c in novel:
-                edges[n].add(c)
-        # calls made by the helper's closures count as the helper's
-    for b in bodies:
-        if b["kind"] == "Closure" and b.get("root") in novel:
-            for blk in b["blocks"]:
-                c = _static_callee(blk["term"])
-                if c in novel:
-                    edges[b["root"]].add(c)
+            if c in by_id:
+                succ.setdefault(owner, set()).add(c)
 
-    def reaches_self(n):
-        seen, st = set(), list(edges[n])
+    def reaches(a, target):
+        seen, st = set(), [a]
         while st:
             x = st.pop()
-            if x == n:
+            if x == target:
                 return True
             if x in seen:
                 continue
             seen.add(x)
-            st.extend(edges.get(x, ()))
+            st.extend(succ.get(x, ()))
         return False
-    recursive = {n for n in novel if reaches_self(n)}
+    pristine = {bid: copy.deepcopy(b) for bid, b in by_id.items() if b["kind"] in ("Fn", "AssocFn")}
     failed = set()
     for _round in range(MAX_ROUNDS):
         changed = False
         for b in bodies:
             if b["kind"] == "Promoted":
                 continue
+            b_owner = (b.get("root") or b["id"]) if b["kind"] == "Closure" else b["id"]
             bi = 0
             while bi < len(b["blocks"]):
                 blk = b["blocks"][bi]
-                c = _static_callee(blk["term"]) if not blk.get("cleanup") else None
-                if c in novel and c not in recursive and c != b["id"]:
-                    if _inline_one(b, bi, novel[c], j["types"]):
-                        rep["inlined_sites"] += 1
-                        changed = True
-                    else:
-                        failed.add(c)
-                        blk["term"]["inline_failed"] = True
-                        # avoid retrying this site forever
-                        blk["term"] = dict(blk["term"], resolved_kind="item-noinline")
                 bi += 1
+                if blk.get("cleanup"):
+                    continue
+                term = blk["term"]
+                c = _static_callee(term)
+                if c is None or c not in pristine or term.get("noinline"):
+                    continue
+                # who "owns" this call: code of b itself and of novel helpers inlined into it is b's; code inlined from a known
+                # function K keeps K's (reviewed) call edges
+                owner = blk.get("owner", b_owner)
+                stack = blk.get("stack", ())
+                is_novel = c in novel
+                new_edge = (_strip_generics(owner), _strip_generics(c)) not in kedges
+                if not (is_novel or new_edge):
+                    continue
+                if c == b_owner or c in stack or reaches(c, b_owner) or len(stack) >= 3:
+                    term["noinline"] = True
+                    continue
+                callee = pristine[c]
+                n0 = len(b["blocks"])
+                if _inline_one(b, bi - 1, callee, j["types"]):
+                    for nb in b["blocks"][n0:]:
+                        nb["owner"] = owner if is_novel else c
+                        nb["stack"] = tuple(stack) + (c,)
+                    rep["inlined_sites"] += 1
+                    if not is_novel:
+                        rep["new_edges"].append([_strip_generics(owner), _strip_generics(c)])
+                    changed = True
+                else:
+                    failed.add(c)
+                    term["noinline"] = True
         if not changed:
             break
-    # a private helper whose every static call site was inlined is only reachable through its callers: drop it
+    # a private novel helper whose every static call site was inlined is only reachable through its callers: drop it
     still_called = set()
     for b in bodies:
         for blk in b["blocks"]:
@@ -254,23 +286,16 @@ def inline_program(j, config):
                 for key in ("resolved", "callee"):
                     if t.get(key) in novel:
                         still_called.add(t[key])
-        # function items used as values (fn pointers, closures' captured fn items)
-    txt_refs = set()
-    for n in novel:
-        pass
     drop = set()
     for n, b in novel.items():
         private = not b.get("reachable", False)
-        if private and n not in still_called and n not in failed and n not in recursive and not _used_as_value(bodies, n):
+        if private and n not in still_called and n not in failed and not _used_as_value(bodies, n):
             drop.add(n)
         else:
             rep["kept"].append(n)
     if drop:
-        j["bodies"] = [b for b in bodies if b["id"] not in drop and not (b["kind"] == "Promoted" and b["id"].split("::promoted[")[0] in drop and False)]
+        j["bodies"] = [b for b in bodies if b["id"] not in drop]
         rep["dropped"] = sorted(drop)
-        for f in j.get("fns", []):
-            if f["path"] in drop:
-                f["inlined_away"] = True
     return rep
 
 
